@@ -22,7 +22,7 @@ CLAIMED = {
          "Design: the per-core collapse rule on a scaled hierarchy selects exactly the added cores once, for every insertion order (65k states). Conformance: every (region, core mask) list rig returns is judged by covering + counting, strict order and well-formedness.",
          "Trusted: TLC, Json override, the region-word meaning written in Regions.tla from 'Managing Big SpiNNaker Machines' as quoted in regions.py; word -> 4 bytes encoding in the harness.",
          "DESIGN.md §6 C12"),
- "C05": ("TLA+ spec Allocate + AllocateScan/AllocateDesign (the greedy scan as coded; soundness, progress, termination under fairness, completeness; TLC exhaustive) + AllocateInd (Apalache: inductive invariant of the scan for unbounded capacity, sizes and alignment; a wrong scan refuted) + TLC trace validation of every range allocate() grants (AllocateTrace.tla), incl. resources counted beyond 2^53 / 2^60 units",
+ "C05": ("TLA+ spec Allocate + AllocateScan/AllocateDesign (the greedy scan as coded; soundness, progress, termination under fairness, completeness; TLC exhaustive) + AllocateInd (Apalache: inductive invariant of the scan for unbounded capacity, sizes and alignment; a wrong scan refuted) + TLC trace validation of every range allocate() grants (AllocateTrace.tla), incl. resources counted beyond 2^53 / 2^60 units; hosts, beyond the property, Glue/GlueDesign/GlueTrace (sdram_alloc_for_vertices, build_application_map, build_routing_tables)",
          "Design: TLC explores the scan for every reservation layout/order, request sequence and alignment at small constants, including liveness. Conformance: each call of allocate() is a trace (grant events, then ok/raise) with Size/InRange/OnAlignment/Unreserved/Disjoint/Once/AllGranted/OnlyDocumentedError/Complete clauses evaluated by TLC.",
          "Trusted: TLC, Json override, the projection of constraints and results into the trace in harness/props/c05.py. Completeness is judged only for non-overlapping end reservations without alignment (the property's own precondition).",
          "DESIGN.md §6 C05"),
@@ -42,7 +42,7 @@ CLAIMED = {
          "Design: clamp/trunc, range, monotonicity, within-one-step and round trip checked against integer arithmetic on a toy float format for all formats n <= 6-7. Conformance: every conversion result is an event; doubles travel as exact sign/mantissa/exponent, 64-bit values as limbs, so TLC decides exact expected values.",
          "Trusted: TLC, float.hex-based decomposition in harness/props/c16.py, NumPy/CPython float semantics. Round trip is demanded for values spanning <= 53 bits; arrays are float64.",
          "DESIGN.md §6 C16, §7"),
- "C20": ("TLA+ spec Boot (datagram layout, un-swapping, config area = packed defaults + options, history clauses) + BootDesign (datagram-level state machine; leaky-default variants refuted) + TLC trace validation of boot histories (BootTrace.tla)",
+ "C20": ("TLA+ spec Boot (datagram layout, un-swapping, config area = packed defaults + options, history clauses) + BootDesign (datagram-level state machine; leaky-default variants refuted) + TLC trace validation of boot histories (BootTrace.tla); hosts, beyond the property, Bmp/BmpDesign/BmpTrace (BMPController sessions) and StructFile/StructFileDesign/StructFileTrace (struct files read, updated, packed)",
          "Design: 2-3 boots x option sets x image lengths; the leaking-default variant violates OnlyOwnOptions as it must. Conformance: histories of 1-4 boots in one (forked) process against a recording socket: every datagram is judged (StartAnnouncesBlocks, BlocksConsecutive, EndAfterBlocks, ImageReassembles, ConfigIsDefaultsPlusOptions, OnlyOwnOptions, ConfigDependsOnOwnOptionsOnly, ReturnedStructsAgree, SentToBootedBoard).",
          "Trusted: TLC, fake socket/time substituted from outside, transcription of the sv struct in Boot.tla from sark.struct. unix_time/boot_sig/root_chip are masked.",
          "DESIGN.md §6 C20"),
@@ -78,7 +78,7 @@ CLAIMED = {
          "Design: 0.26 M states quick (3 commands, window 1-2, tries 1-2, 4 sequence numbers, 2 bursts) + a wrap configuration; 2.9 M thorough; liveness checked. Conformance: exhaustive schedule trees at small scope (alphabet lost / ok / at-deadline / late / dup / busy / fatal), TLC-simulated schedules, random connections with 1-3 bursts: WindowBound, SeqNotOutstanding, NoEarlyRetransmit, TriesBound, AtMostOnce, RightReply, ExactlyOnce, ReturnedComplete, TimeoutHonest, FatalRaises, Terminates.",
          "Trusted: TLC, harness/env/net.py (environment and recorder). Assumption: a reply is not delivered after its sequence number was re-issued by the protocol's own allocation rule (reference allocator in the environment; the design job shows the wrong-callback interleaving without it). Time is virtual in 0.25 s ticks.",
          "DESIGN.md §6 C06"),
- "C14": ("TLA+ specs Probe (wire layouts of info / P2P / sver / status / IOBUF / counters; model chips, links, reservation rule) + ProbeDesign (encode/decode round trips, reservation procedure; TLC exhaustive) + ProbeTrace validating get_system_info / get_machine / build_machine / build_core_constraints / status readers against generated machine states on the simulated machine",
+ "C14": ("TLA+ specs Probe (wire layouts of info / P2P / sver / status / IOBUF / counters; model chips, links, reservation rule) + ProbeDesign (encode/decode round trips, reservation procedure; TLC exhaustive) + ProbeTrace validating get_system_info / get_machine / build_machine / build_core_constraints / status readers against generated machine states on the simulated machine; hosts, beyond the property, Scripts/ScriptsDesign/ScriptsTrace (the seven command-line tools run in-process against planted machine states)",
          "Design: 0.13-0.94 M states: InfoRoundTrip, P2PRoundTrip across the 8-per-word boundary, ResvRuleSound / ResvProcedureIsRule for every busy-core pattern on <= 3 chips x 4 cores. Conformance: 271 machine states quick / 2.5 k thorough incl. sparse 255-wide address spaces, unresponsive chips, both version encodings, IOBUF chains; 30+ clauses incl. ChipsExactlyResponding, MachineLinksTrue, ReservationsCoverExactlyNonIdleCores, ReservationsDisjoint and Env* clauses validating the simulator's replies against the documented layouts.",
          "Trusted: TLC, harness/env/probesim.py as environment (validated by Env* clauses). build_application_map is anchored code but not part of the statement and is not judged.",
          "DESIGN.md §6 C14"),
